@@ -366,7 +366,26 @@ def churn_plans(draw, tier):
             'knobs': knobs}
 
 
+@st.composite
+def storm_plans(draw, tier):
+    """One (probably failing) load repeated 16 000 times, nothing else in between:
+    state that saturates only after thousands of failed calls (thorough tier only)."""
+    spec = draw(plans.specs('s0', max_classes=4))
+    mk = draw(mk_ops([spec], 0))
+    mk['kind'] = 'load'
+    mk['root'] = draw(st.sampled_from(plans.root_types(spec)))
+    doc, _, _ = draw(plans.doc_texts(spec, mk['root'], p_corrupt=1.0, max_corrupt=2))
+    op = {'op': 'load', 'slot': 0, 'doc': doc, 'source': 'str', 'file': 'cfg.storm'}
+    return {'specs': [spec], 'setup': [mk], 'threads': [[op]], 'tape': {'entries': [], 'tail': None},
+            'knobs': {'scope': 'core', 'granularity': 'line', 'repeat': 16000, 'retain_exc': False}}
+
+
 def plans_strategy(tier):
+    if tier == 'thorough':
+        # (storm plans cost about half a minute each)
+        return st.integers(0, 1499).flatmap(
+            lambda r: storm_plans(tier) if r == 0 else
+            (churn_plans(tier) if r % 15 == 1 else world_plans(tier)))
     return st.one_of(*([world_plans(tier)] * 14 + [churn_plans(tier)]))
 
 
